@@ -164,8 +164,19 @@ class Runner:
                 and m.fields.get(F_DESTINATION) is None and len(m.body) == 3 and m.body[0] == name)
 
     # -- events ---------------------------------------------------------------------
+    def connect(self):
+        # the socket file exists after bind(); listen() may not have happened yet: retry (startup only)
+        t_end = time.time() + 10
+        while True:
+            try:
+                return self.d.connect()
+            except ConnectionRefusedError:
+                if time.time() > t_end or not self.alive():
+                    raise
+                time.sleep(0.002)
+
     def ev_hello(self, c):
-        conn = self.d.connect()
+        conn = self.connect()
         self.conns[c] = conn
         r = conn.hello()
         if r is None or r.mtype != METHOD_RETURN:
